@@ -190,8 +190,16 @@ def run(res, tier, seed, replay):
         cases, _ = vlib.run_harness(b, ["--replay", tmp])
     else:
         n = 300 if tier == "quick" else 5000
-        cases, _ = vlib.run_harness(b, ["--seed", str(seed), "--count", str(n),
-                                        "--maxops", "1400" if tier == "quick" else "2200"])
+        maxops = "1400" if tier == "quick" else "2200"
+        try:
+            cases, _ = vlib.run_harness(b, ["--seed", str(seed), "--count", str(n), "--maxops", maxops])
+        except vlib.HarnessCrash as e:
+            # the real Pool crashed (memory error): the sequence being run is the failing input
+            res.violation(f"crash-seq-{e.completed}", f"the real Pool crashed (signal {-e.returncode}) while running generated "
+                          f"sequence #{e.completed} (seed {seed}, maxops {maxops}): a reference or slot became invalid",
+                          {"harness": "pool_ops", "args": ["--seed", seed, "--count", 1, "--skip", e.completed, "--maxops", maxops],
+                           "stderr": str(e)[-800:]})
+            cases, _ = vlib.run_harness(b, ["--seed", str(seed), "--count", str(e.completed), "--maxops", maxops]) if e.completed else ([], [])
         cdir = os.path.join(vlib.ROOT, "corpus", "C18")
         if os.path.isdir(cdir):
             for f in sorted(os.listdir(cdir)):
